@@ -253,7 +253,7 @@ fn replay(path: &str, worker: bool) -> i32 {
             "c12-string" => props::c12::replay(r),
             "c17-string" => props::c17::replay(r),
             "e3-word" | "e3-interrupted" | "e3-selfplay" => props::e3::replay(&prop, r),
-            "c08-tiny" => props::c08::replay(r),
+            "c08-tiny" | "c08-repetition" => props::c08::replay(r),
             "c07-stop" => props::c07::replay(r),
             "c09-root" => props::c09::replay(r),
             "c10-root" | "c10-history" | "c10-game" => props::c10::replay(r),
